@@ -54,6 +54,12 @@ def generate_ops(rng, cfg, spec, tier) -> list[dict]:
     # bias: restart right after fit
     if rng.random() < 0.5:
         ops.append(restart("m"))
+    if cfg.get("focus") == "rotator" and cfg["rot_params"] and not dataless["m"]:
+        ops.append({"op": "rot_fit"})
+        has_rot = True
+        ops.append(restart("r"))
+        if rng.random() < 0.5:
+            ops.append({"op": "compute", "target": "r"})
     while len(ops) < n:
         r = rng.random()
         tgt = "r" if (has_rot and rng.random() < 0.45) else "m"
